@@ -209,13 +209,13 @@ def lane_matrix(prop, tier, seed, jobs, params):
     n, strict, interesting = 0, 0, 0
     for line in so.splitlines():
         parts = line.split("|")
-        if len(parts) == 4 and parts[0] in ("OWNED", "KEY", "CLONE", "DEFAULT", "KEYSEND", "INTOITER", "COPY"):
+        if len(parts) == 4 and parts[0] in ("OWNED", "KEY", "CLONE", "DEFAULT", "KEYSEND", "INTOITER", "COPY", "CTOR"):
             kind, ty, expected, actual = parts
             n += 1
             expected, actual = expected == "true", actual == "true"
             if not expected:
                 interesting += 1
-            props = ("C15", "C07") if kind == "OWNED" else ("C14",)
+            props = ("C15", "C07") if kind in ("OWNED", "CTOR") else ("C14",)
             if actual and not expected and prop in props:
                 what = {
                     "OWNED": "%s implements OwnedLockable although it does not own its locks: the constructors that skip the duplicate check accept it",
@@ -225,6 +225,7 @@ def lane_matrix(prop, tier, seed, jobs, params):
                     "KEYSEND": "%s is Send: a guard carrying the thread's key can be moved to another thread",
                     "INTOITER": "%s implements IntoIterator by value: consuming it hands out its parts (per-lock holds) and drops the key it carries",
                     "COPY": "%s implements Copy: a key / live hold can be duplicated in safe code",
+                    "CTOR": "%s holds: a collection over references can be built / filled by a constructor that skips the duplicate check",
                 }[kind] % ty
                 violations.append(dict(prop=prop, rule="marker_trait_too_permissive", detail=what,
                                        signature="%s:matrix:%s:%s" % (prop, kind, ty), case="corpus/C15_matrix/matrix.rs", index=n, log=[]))
